@@ -17,7 +17,7 @@ LEVEL = "exploration"
 TECHNIQUE = ("runtime monitoring: lookup probes + IAddrListener recorder on the real AddrMap/TorState under a "
              "virtual clock (task.Clock scheduler, patched utcnow), reference address-map model as oracle, "
              "generated ADDRMAP/clock histories judged after every step")
-LEVEL_TEXT = ("Held on the executions observed: tens of thousands (quick) to ~1M (thorough) generated histories of ADDRMAP "
+LEVEL_TEXT = ("Held on the executions observed: ~25k (quick) to ~1.7M (thorough) generated histories of ADDRMAP "
               "lines (all wire forms) and clock advances over 1-4 names with expiries from -1 day to +30 days; after every "
               "step every name and every address ever mapped is probed and the listener log of that step compared with the "
               "model. Sampling, not a proof for unexplored histories.")
